@@ -24,7 +24,7 @@ import (
 func init() {
 	Registry["C13"] = &Check{
 		Scenarios: c13Scenarios,
-		Rule: "client side: MaxRetransmits R in {0,1,2}, WatchdogInterval 3 s, RetransmitInterval 1 s on the virtual clock; the peer's reaction to the n-th DWR transmission is scripted from {success DWA after 0, 1/2 or 1 interval (1 = exact tie with the retransmission timer), DWA 5012 at once, silence}, scripts with other non-success answers (1001, 3004, a DWA without Result-Code), plus five burst scripts with answers delayed by 3/2 and 5/2 intervals (several late answers landing inside one later waiting window); all scripts of length <=2 (thorough 3), silence afterwards, so every run ends with the watchdog closing the connection; every schedule of watchdog thread, reader, timers and peer up to preemption bound 2 (thorough: unbounded for scripts of length <=1); peer steps and due timers are free transitions, so every ordering of answer / timer / reader is explored already at bound 0. Oracle: the observed (time, hop-by-hop id) sequence of DWRs and the close time must be one of the timelines of a reference model (branching only at exact ties). Redial: the peer of a first connection leaves the first DWR unanswered and disconnects 0 or 1/2 interval later, the application redials at once with the same Client, and the second connection (peer answers two DWRs, then silence) must show the model's timeline measured from its own handshake (R in {0,1}). Two live connections of one Client (dialled one after the other, both peers answer every DWR): neither is closed and each sees one DWR per interval. A client with the watchdog enabled answers a DWR its handshaken peer sends (between rounds and at the instant of its own DWR). Server side: for every DWR from a handshaken peer over {both identity AVPs, Origin-Host missing, Origin-Realm missing, with Origin-State-Id, Origin-Host in another letter case, another Origin-Host} x ids {0,1,2^31,2^32-1}^2 the state machine must answer a success DWA with the local identity and the request's ids.",
+		Rule: "client side: MaxRetransmits R in {0,1,2}, WatchdogInterval 3 s, RetransmitInterval 1 s on the virtual clock; the peer's reaction to the n-th DWR transmission is scripted from {success DWA after 0, 1/2 or 1 interval (1 = exact tie with the retransmission timer), DWA 5012 at once, silence}, scripts with other non-success answers (1001, 3004, a DWA without Result-Code), plus five burst scripts with answers delayed by 3/2 and 5/2 intervals (several late answers landing inside one later waiting window); all scripts of length <=2 (thorough 3), silence afterwards, so every run ends with the watchdog closing the connection; every schedule of watchdog thread, reader, timers and peer up to preemption bound 2 (thorough: unbounded for scripts of length <=1); peer steps and due timers are free transitions, so every ordering of answer / timer / reader is explored already at bound 0. Oracle: the observed (time, hop-by-hop id) sequence of DWRs and the close time must be one of the timelines of a reference model (branching only at exact ties). Redial: the peer of a first connection leaves the first DWR unanswered and disconnects 0 or 1/2 interval later, the application redials at once with the same Client, and the second connection (peer answers two DWRs, then silence) must show the model's timeline measured from its own handshake (R in {0,1}). Two live connections of one Client (dialled one after the other, both peers answer every DWR): neither is closed and each sees one DWR per interval. A client with the watchdog enabled answers a DWR its handshaken peer sends (between rounds and at the instant of its own DWR). Server side: one state machine serves 40 peers one after the other (handshake, DWR, disconnect each); for every DWR from a handshaken peer over {both identity AVPs, Origin-Host missing, Origin-Realm missing, with Origin-State-Id, Origin-Host in another letter case, another Origin-Host} x ids {0,1,2^31,2^32-1}^2 the state machine must answer a success DWA with the local identity and the request's ids.",
 		Assume: []string{"virtual time: writes and computation take no time", "data-race freedom between visible operations (audited separately with -race)"},
 		QuickBudget: 150, ThoroughBudget: 2400,
 	}
@@ -121,6 +121,7 @@ func c13Scenarios(tier string) []*Scenario {
 		out = append(out, c13PeerDWR(at, bound))
 	}
 	out = append(out, &Scenario{Name: "server/dwr-grid", Seq: c13Server})
+	out = append(out, &Scenario{Name: "server/many-sequential-peers", Seq: c13ManyPeers})
 	return out
 }
 
@@ -788,4 +789,60 @@ func c13PeerDWR(at time.Duration, bound int) *Scenario {
 	}
 	return &Scenario{Name: fmt.Sprintf("client-answers-peer-dwr/at-%v", at), Body: body, Check: check, Bound: bound, Horizon: c13W + c13I/2 + at,
 		Outcome: func(s *vs.Sched) string { return fmt.Sprint(len(c13peer.dwas), c13peer.conn.Closed) }}
+}
+
+// c13ManyPeers: ONE state machine serves 40 peers one after the other (nobody reads its
+// HandshakeNotify channel - doing so is optional); every one completes the handshake and gets its
+// DWR answered.
+func c13ManyPeers(r *SeqResult) {
+	var verdict, stage string
+	served := 0
+	s := vs.Run(nil, false, 0, false, func() {
+		settings := &sm.Settings{OriginHost: "srv", OriginRealm: "realm", VendorID: 13, ProductName: "prod",
+			HostIPAddresses: []datatype.Address{datatype.Address(net.ParseIP("10.0.0.1"))}}
+		mach := sm.New(settings)
+		for i := 0; i < 40; i++ {
+			conn := vnet.NewConn(fmt.Sprintf("S%d", i))
+			conn.Pieces = 1
+			if _, err := diam.NewConn(conn, "peer", mach, dict.Default); err != nil {
+				verdict = err.Error()
+				return
+			}
+			p := &Peer{C: conn}
+			conn.Deliver(refcodec.EncodeMessage(refcodec.Header{Version: 1, Flags: 0x80, Code: 257, HbH: uint32(i), E2E: 6}, []refcodec.Node{
+				ident(264, "cli"), ident(296, "test"), {Code: 257, Flags: 0x40, Payload: refcodec.Address(1, []byte{10, 0, 0, 9})},
+				u32avp(266, 13), {Code: 269, Payload: []byte("x")}, u32avp(258, 4)}))
+			stage = fmt.Sprintf("peer %d sent its CER", i+1)
+			cea := p.Next()
+			if cea == nil || cea.Find(268) == nil || be32(cea.Find(268).Payload) != 2001 {
+				verdict = fmt.Sprintf("peer %d of one state machine: the handshake did not complete", i+1)
+				return
+			}
+			conn.Deliver(refcodec.EncodeMessage(refcodec.Header{Version: 1, Flags: 0x80, Code: 280, HbH: uint32(1000 + i), E2E: 7}, []refcodec.Node{ident(264, "cli"), ident(296, "test")}))
+			stage = fmt.Sprintf("peer %d completed the handshake and sent a well-formed DWR", i+1)
+			dwa := p.Next()
+			if dwa == nil || dwa.Hdr.Code != 280 || dwa.Hdr.HbH != uint32(1000+i) || dwa.Find(268) == nil || be32(dwa.Find(268).Payload) != 2001 {
+				verdict = fmt.Sprintf("peer %d served by one state machine completed the handshake but its well-formed DWR was not answered with a success DWA", i+1)
+				return
+			}
+			conn.PeerEOF()
+			served++
+		}
+	})
+	panics := s.Panics()
+	blocked := s.BlockedLib()
+	s.Teardown()
+	if verdict == "" && served < 40 {
+		verdict = stage + " - and was never answered"
+	}
+	r.Cases += 40
+	r.Distinct += 40
+	r.Sample = "40 sequential peers on one state machine: CER, DWR, disconnect"
+	if verdict == "" && len(panics) > 0 {
+		verdict = "panic: " + panics[0]
+	}
+	if verdict != "" {
+		r.Violation = fmt.Sprintf("%s (library goroutines blocked at the end: %v)", verdict, blocked)
+		r.Case = map[string]interface{}{"scenario": "many-peers"}
+	}
 }
